@@ -636,8 +636,10 @@ def correspondence(ctx):
         ctx.count('out/%s/%s' % (fn, impl.split(':')[0] if not fn.startswith('prim/') or impl.endswith('Error') else 'value'))
         if is_nontrivial(case, tag, impl):
             ctx.nontrivial(sorted((k, repr(v)) for k, v in case.items()))
-        if fn in ('bool', 'valint', 'uuid', 'strlen') and impl not in ('default', '0'):
-            ctx.sample({'case': {k: (short(v) if k == 'value' else v) for k, v in case.items()}, 'implementation': impl}, 8)
+        if impl not in ('default', '0') and not fn.startswith('prim/') and ctx.hist.get('sampled/' + fn, 0) < 2 \
+                and tag.split('/')[0] not in ('word', 'limit'):
+            ctx.hist['sampled/' + fn] = ctx.hist.get('sampled/' + fn, 0) + 1
+            ctx.sample({'case': {k: (short(v) if k == 'value' else v) for k, v in case.items()}, 'implementation': impl}, 14)
         if impl != rep:
             out.append(Disagreement(case, impl, rep))
     return out
